@@ -14,7 +14,11 @@
 (*   Trace_PipelineSteps (a behaviour of Pipeline.tla performs exactly the       *)
 (*   logged Work steps in the logged order and ends with the observed result),   *)
 (*   loadOK : likewise for the recorded load against Loader.tla                  *)
-(*   (Trace_LoaderSteps), for include trees of up to 10 files]                    *)
+(*   (Trace_LoaderSteps), for include trees of up to 10 files,                    *)
+(*   forced : [on, abandoned, followed, sameOut] - directed replay: the run was   *)
+(*   driven (Gate hook) through an order of Work steps that TLC generated from    *)
+(*   Pipeline.tla (MC_PipelineOrders); it must have followed it and given the     *)
+(*   result of the unforced reference run]                                        *)
 EXTENDS Integers, Sequences, FiniteSets, Json, TLC
 Cases == ndJsonDeserialize("cases.ndjson")
 VARIABLES i, failed
@@ -38,6 +42,8 @@ Why(c) ==
      ELSE IF badRuns # {} THEN WhyRun(c.runs[CHOOSE n \in badRuns : \A m \in badRuns : n <= m])
      ELSE IF ~c.stepsOK THEN "run-is-not-a-behaviour-of-Pipeline.tla"
      ELSE IF ~c.loadOK THEN "load-is-not-a-behaviour-of-Loader.tla"
+     ELSE IF c.forced.on /\ ~c.forced.abandoned /\ ~c.forced.followed THEN "forced-schedule-not-followed"
+     ELSE IF c.forced.on /\ ~c.forced.sameOut THEN "result-under-a-forced-schedule-differs-from-the-reference-run"
      ELSE IF anyErr /\ c.exit = 0 THEN "success-although-a-stage-failed"
      ELSE IF c.expectFail /\ c.exit = 0 THEN "success-although-the-input-is-broken"
      ELSE IF c.exit # 0 /\ c.ctxErr THEN "reported-context-canceled-instead-of-the-stage-error"
